@@ -68,6 +68,7 @@ PNAMES = ["alpha", "beta", "gamma", "delta", "omega", "kappa", "sigma"]
 # unadapted (open finding C14-namespace-member-init-arg-unadapted); generated families stay away from them
 CLASH_NAMES = ["items", "keys", "values", "get", "pop", "update"]
 F_CLASH = "C14-namespace-member-init-arg-unadapted"
+F_NONE = "C14-explicit-none-for-non-optional"
 
 
 # ---------------------------------------------------------------------------------------------
@@ -92,7 +93,7 @@ def text_of(v):
 # families
 # ---------------------------------------------------------------------------------------------
 def P(name, ty, default="REQ"):
-    """ty: ("scalar", t) | ("cls", C) | ("optCls", C) | ("list", C) | ("dict", C) | ("union", C)"""
+    """ty: ("scalar", t) | ("optScalar", t) | ("cls", C) | ("optCls", C) | ("list", C) | ("dict", C) | ("union", C)"""
     return {"name": name, "ty": list(ty), "default": default}
 
 
@@ -126,6 +127,11 @@ def gen_family(rng):
                 else:                        # overridden type
                     t = rng.choice(["int", "str", "bool"] if ps[i]["name"] in CLASH_NAMES else list(SCALARS))
                     ps[i] = P(ps[i]["name"], ("scalar", t), rng.choice(SCALARS[t]))
+        if ps and rng.random() < 0.35:       # an inherited scalar parameter becomes Optional[...] here (siblings keep it plain)
+            i = rng.randrange(len(ps))
+            if ps[i]["ty"][0] == "scalar":
+                t = ps[i]["ty"][1]
+                ps[i] = P(ps[i]["name"], ("optScalar", t), None if rng.random() < 0.6 else rng.choice(SCALARS[t]))
         if ps and rng.random() < 0.2:        # a parameter dropped
             del ps[rng.randrange(len(ps))]
         for n in added_names:
@@ -149,6 +155,15 @@ def gen_family(rng):
                     "params": [P("dep", ("cls", "Base")), P("count", ("scalar", "int"), rng.choice(SCALARS["int"]))]})
     classes.append({"name": "Holder", "bases": [], "abstract": False, "kwargs": False,
                     "params": [P("elems", ("list", "Dep"), []), P("maybe", ("optCls", "Dep"), None), P("either", ("union", "Dep"), 1), P("table", ("dict", "Dep"), {})]})
+    if rng.random() < 0.8:
+        # sibling subclasses share a parameter name that is Optional[T] in SubA and plain T (required or with a non-None
+        # default) in Base / SubB / SubKW: a None carried across a class change must not survive
+        n0 = base_params[0]["name"]
+        for c in classes:
+            if c["name"] == "SubA":
+                for i, q in enumerate(c["params"]):
+                    if q["name"] == n0 and q["ty"][0] == "scalar":
+                        c["params"][i] = P(n0, ("optScalar", q["ty"][1]), None if rng.random() < 0.7 else rng.choice(SCALARS[q["ty"][1]]))
     for c in classes:
         c["params"] = [p for p in c["params"] if p["default"] == "REQ"] + [p for p in c["params"] if p["default"] != "REQ"]
     funcs = [{"name": "make_suba", "ret": "SubA", "params": [dict(p) for p in suba if p["ty"][0] == "scalar"][:2]},
@@ -165,7 +180,7 @@ def gen_family(rng):
 
 def ann_src(ty):
     k, c = ty
-    return {"scalar": c, "cls": c, "optCls": "Optional[%s]" % c, "list": "List[%s]" % c, "dict": "Dict[str, %s]" % c, "union": "Union[%s, int]" % c}[k]
+    return {"scalar": c, "optScalar": "Optional[%s]" % c, "cls": c, "optCls": "Optional[%s]" % c, "list": "List[%s]" % c, "dict": "Dict[str, %s]" % c, "union": "Union[%s, int]" % c}[k]
 
 
 def params_src(params):
@@ -464,6 +479,8 @@ def value_fits(fam, p, v):
     k, c = p["ty"]
     if k == "scalar":
         return not isinstance(v, dict) and v is not None and scalar_ok(c, v)
+    if k == "optScalar":
+        return v is None or (not isinstance(v, dict) and scalar_ok(c, v))
     if k in ("cls", "optCls"):
         if v is None:
             return k == "optCls"
@@ -522,7 +539,15 @@ def ref_value(fam, params, k, prev, v):
         raise Reject("unknownKey")
     kind, c = p["ty"]
     if kind == "scalar":
-        if isinstance(v, dict) or v is None or not scalar_ok(c, v):
+        if v is None:
+            raise Reject("noneForScalar")     # None only where the annotation allows None
+        if isinstance(v, dict) or not scalar_ok(c, v):
+            raise Reject("illTyped")
+        return scalar_conv(c, v)
+    if kind == "optScalar":
+        if v is None:
+            return None
+        if isinstance(v, dict) or not scalar_ok(c, v):
             raise Reject("illTyped")
         return scalar_conv(c, v)
     if kind == "optCls" and v is None:
@@ -549,7 +574,7 @@ def ref_finalize(fam, state):
     for p in target_params(fam, state["t"]):
         if p["name"] in state["ia"]:
             v = state["ia"][p["name"]]
-            out[p["name"]] = ref_finalize(fam, v) if isinstance(v, dict) else (scalar_conv(p["ty"][1], v) if p["ty"][0] == "scalar" else v)
+            out[p["name"]] = ref_finalize(fam, v) if isinstance(v, dict) else (scalar_conv(p["ty"][1], v) if p["ty"][0] in ("scalar", "optScalar") and v is not None else v)
         elif p["default"] != "REQ":
             out[p["name"]] = p["default"]
         else:
@@ -715,12 +740,12 @@ def real_run(fam, T, argv, twice=True, default=None):
 # ---------------------------------------------------------------------------------------------
 def wire_param(fam, p):
     k, c = p["ty"]
-    ty = ["scalar", c] if k == "scalar" else [k, canonical(fam, c)]
+    ty = [k, c] if k in ("scalar", "optScalar") else [k, canonical(fam, c)]
     return {"name": p["name"], "ty": ty, "dflt": [] if p["default"] == "REQ" else [{"lit": lit(p["default"])}]}
 
 
 def model_ok_params(params):
-    return all(p["ty"][0] in ("scalar", "cls", "optCls") for p in params)
+    return all(p["ty"][0] in ("scalar", "optScalar", "cls", "optCls") for p in params)
 
 
 def wire_env(fam):
@@ -797,6 +822,8 @@ def gen_value_for(rng, fam, p, depth=0):
     k, c = p["ty"]
     if k == "scalar":
         return rng.choice(SCALARS[c])
+    if k == "optScalar":
+        return None if rng.random() < 0.45 else rng.choice(SCALARS[c])
     if k == "optCls" and rng.random() < 0.25:
         return None
     return gen_spec_raw(rng, fam, c, depth + 1)
@@ -862,7 +889,7 @@ def gen_sources(rng, fam, T, n_steps, fault=None):
         if cur is None or r < 0.45:
             src = {"form": "value", "raw": gen_spec_raw(rng, fam, T), "via": rng.choice(["argv", "argv", "config", "file"])}
         else:
-            params = [p for p in target_params(fam, cur) if p["ty"][0] in ("scalar", "cls", "optCls")]
+            params = [p for p in target_params(fam, cur) if p["ty"][0] in ("scalar", "optScalar", "cls", "optCls")]
             if not params:
                 src = {"form": "value", "raw": gen_spec_raw(rng, fam, T), "via": "argv"}
             else:
@@ -879,6 +906,8 @@ def gen_sources(rng, fam, T, n_steps, fault=None):
                     if isinstance(v, dict) and "name" not in v:
                         # a nested dict value through a dotted option is given as JSON text
                         src = {"form": "dotted", "key": [p["name"]], "raw": v, "ia_prefix": rng.random() < 0.4}
+                    elif v is None and p["ty"][0] == "optScalar" and rng.random() < 0.6:
+                        src = {"form": "dotted", "key": [p["name"]], "raw": None, "ia_prefix": rng.random() < 0.4}     # --opt.p=null
                     elif v is None:
                         src = {"form": "value", "raw": {"bare": {p["name"]: None}}, "via": "argv"}
                     else:
@@ -949,6 +978,93 @@ def inject_fault(rng, fam, T, state, fault):
     return None
 
 
+def none_carry_cases(rng, fam):
+    """class changes X -> Y where a parameter is Optional[T] in X and plain T in Y and the value carried from X is None
+    (explicit null through a dotted option, through a config, or the completed default of the argument)"""
+    out = []
+    for T in ("Base", "SubA"):
+        acc = [t for t in acceptable(fam, T) if cls_of(fam, t)]
+        for X in acc:
+            for p in target_params(fam, X):
+                if p["ty"][0] != "optScalar":
+                    continue
+                for Y in acc:
+                    q = param_of(target_params(fam, Y), p["name"]) if Y != X else None
+                    if not q or q["ty"][0] != "scalar":
+                        continue
+                    ia_x = {k: v for k, v in gen_ia(rng, fam, X).items() if k != p["name"]}
+                    ia_y = {k: v for k, v in gen_ia(rng, fam, Y).items() if k != p["name"]}
+                    to_y = {"cp": name_notation(rng, fam, T, Y), "ia": ia_y, "dk": None} if ia_y else {"name": name_notation(rng, fam, T, Y)}
+                    seqs = [
+                        [{"form": "value", "raw": {"cp": name_notation(rng, fam, T, X), "ia": ia_x, "dk": None}, "via": "argv"},
+                         {"form": "dotted", "key": [p["name"]], "raw": None, "ia_prefix": rng.random() < 0.5},
+                         {"form": "value", "raw": to_y, "via": rng.choice(["argv", "config"])}],
+                        [{"form": "value", "raw": {"cp": name_notation(rng, fam, T, X), "ia": dict(ia_x, **{p["name"]: None}), "dk": None}, "via": "config"},
+                         {"form": "value", "raw": to_y, "via": "config"}],
+                        [{"form": "default", "raw": {"cp": "^" + X, "ia": dict({k: v for k, v in ia_x.items() if not isinstance(v, dict)}, **{p["name"]: None}), "dk": None}},
+                         {"form": "value", "raw": to_y, "via": "argv"}],
+                    ]
+                    if p["default"] is None and not any(isinstance(v, dict) for v in ia_x.values()):
+                        # the None comes from the class default that completes the argument's default spec
+                        seqs.append([{"form": "default", "raw": {"cp": "^" + X, "ia": ia_x, "dk": None}}, {"form": "value", "raw": to_y, "via": "argv"}])
+                    # a value that IS valid for Y is kept (control)
+                    seqs.append([{"form": "value", "raw": {"cp": name_notation(rng, fam, T, X), "ia": dict(ia_x, **{p["name"]: rng.choice(SCALARS[p["ty"][1]])}), "dk": None}, "via": "argv"},
+                                 {"form": "value", "raw": to_y, "via": "argv"}])
+                    for sq in seqs:
+                        if not has_dk_before_change(fam, T, sq):
+                            out.append((fam, T, sq))
+    rng.shuffle(out)
+    return out[:10]
+
+
+def class_params_by_path(fam):
+    m = {}
+    for c in fam["classes"]:
+        m[canonical(fam, c["name"])] = c["params"]
+    for f in fam["funcs"]:
+        m[canonical(fam, f["name"])] = f["params"]
+    if fam.get("dup"):
+        m[canonical(fam, "%" + fam["dup"]["name"])] = fam["dup"]["params"]
+    return m
+
+
+NONE_LIT = {"lit": ["NoneType", "None"]}
+
+
+def validity_problem(fam, cfg, ctors=None):
+    """every init_arg of the accepted spec must be valid for the NAMED class: a parameter of that class, and None only
+    where the annotation allows None; the constructors must not receive None for a non-Optional parameter"""
+    by_path = class_params_by_path(fam)
+
+    def walk(spec, where):
+        if not isinstance(spec, dict) or "cp" not in spec:
+            return None
+        params = by_path.get(spec["cp"])
+        if params is None:
+            return None
+        for k, v in spec["ia"].items():
+            q = param_of(params, k)
+            if q is None:
+                return "%s: init arg %r is not a parameter of %s" % (where, k, spec["cp"])
+            if v == NONE_LIT and q["ty"][0] in ("scalar", "cls", "list", "dict"):
+                return "%s: init arg %s=None, but %s declares it as %s (not Optional)" % (where, k, spec["cp"].split(".")[-1], ann_src(q["ty"]))
+            r = walk(v, where + "." + k)
+            if r:
+                return r
+        return None
+
+    r = walk(cfg, "opt")
+    if r:
+        return r
+    for c in ctors or []:
+        params = by_path.get(c["target"])
+        for k, a in c["args"].items():
+            q = param_of(params or [], k)
+            if q is not None and a == NONE_LIT and q["ty"][0] in ("scalar", "cls", "list", "dict"):
+                return "%s was constructed with %s=None although the parameter is not Optional" % (c["target"].split(".")[-1], k)
+    return None
+
+
 FAULTS = ["wrong-class", "non-class", "missing-import", "unknown-key", "ill-typed", "missing-required", "abstract-bare", "ambiguous-name"]
 
 
@@ -989,6 +1105,10 @@ def oracle(fam, T, sources, real):
     exp = reference(fam, T, sources)
     if real["kind"] not in ("ok", "reject"):
         return "parsing neither succeeds nor raises ArgumentError: %s %s" % (real["kind"], real.get("msg", ""))
+    if real["kind"] == "ok" and real.get("cfg") is not None:
+        vp = validity_problem(fam, real["cfg"], real.get("ctors"))
+        if vp:
+            return "the accepted configuration is not valid for the named class: " + vp
     if exp[0] == "reject":
         if real["kind"] == "ok":
             return "a value that must be rejected (%s) is accepted: %s" % (exp[1], json.dumps(real["cfg"])[:300])
@@ -1110,9 +1230,12 @@ def run_cases(ctx: Ctx, cases, origin):
                 ctx.known(F_STALE_DK, "%s (argv %s)" % (dev[:200], json.dumps(argv)[:160]))
             elif clash and ctx.is_open(F_CLASH):
                 ctx.known(F_CLASH, "%s (argv %s)" % (dev[:200], json.dumps(argv)[:160]))
+            elif reference(fam, T, sources) == ("reject", "noneForScalar") and ctx.is_open(F_NONE):
+                ctx.known(F_NONE, "%s (argv %s)" % (dev[:200], json.dumps(argv)[:160]))
             else:
                 def still(c):
-                    return oracle(fam, T, c, real_run(fam, T, build_argv(fam, c), default=default_of(c))) is not None and not has_dk_before_change(fam, T, c)
+                    return oracle(fam, T, c, real_run(fam, T, build_argv(fam, c), default=default_of(c))) is not None and not has_dk_before_change(fam, T, c) \
+                        and reference(fam, T, c) != ("reject", "noneForScalar")
 
                 small = shrink_sources(fam, T, sources, still)
                 a2 = build_argv(fam, small)
@@ -1121,7 +1244,7 @@ def run_cases(ctx: Ctx, cases, origin):
                 ctx.violation("class_path handling deviates from the property: %s" % (oracle(fam, T, small, r2) or dev),
                               {"kind": "case", "origin": origin, "family": fam, "declared": T, "sources": small, "argv": a2,
                                "module": family_src(fam), "observed": {k: v for k, v in r2.items() if k != "root"}})
-        if model is not None and index[i] is not None and not clash:
+        if model is not None and index[i] is not None and not clash and reference(fam, T, sources) != ("reject", "noneForScalar"):
             d = corr_diff(fam, T, sources, real, model[index[i]])
             if d is not None:
                 bad += 1
@@ -1281,6 +1404,12 @@ def run(ctx: Ctx):
                     src = gen_sources(ctx.rng, fam, T, ctx.rng.randint(1, 2), fault=fault)
                     if not has_dk_before_change(fam, T, src):
                         cases.append((fam, T, src))
+        n_carry = 0
+        for fam in fams:
+            nc = none_carry_cases(ctx.rng, fam)
+            n_carry += len(nc)
+            cases.extend(nc)
+        ctx.extra["none_carried_across_class_change_cases"] = n_carry
         for fam, T, src in cases[:3]:
             ctx.sample({"declared": T, "argv": build_argv(fam, src)})
         bad += run_cases(ctx, cases, "generated")
